@@ -309,6 +309,9 @@ func (a *Authenticator) receiveCHAP(data []byte) error {
 	identifier := data[1]
 	length := binary.BigEndian.Uint16(data[2:4])
 
+	if length < 4 {
+		return fmt.Errorf("CHAP length shorter than header")
+	}
 	if int(length) > len(data) {
 		return fmt.Errorf("CHAP length exceeds packet")
 	}
